@@ -137,12 +137,15 @@ Qed.
 Lemma all_ctls_length : N.of_nat (length all_ctls) = 8192.
 Proof. vm_compute. reflexivity. Qed.
 
-Lemma chk_sweep : forallb chk_all all_ctls = true.
+Lemma chk_sweep : forallb (fun c => chk_result c (sym_run c)) all_ctls = true.
 Proof. vm_compute. reflexivity. Qed.
 
-Lemma chk_run pi pr sc : wf_params pi -> wf_params pr -> chk_all (control_of pi pr sc) = true.
+Lemma chk_run pi pr sc : wf_params pi -> wf_params pr ->
+  chk_result (control_of pi pr sc) (sym_run (control_of pi pr sc)) = true.
 Proof.
-  intros Hi Hr. exact (proj1 (forallb_forall chk_all all_ctls) chk_sweep _ (control_of_in pi pr sc Hi Hr)).
+  intros Hi Hr.
+  pose proof (proj1 (forallb_forall _ all_ctls) chk_sweep _ (control_of_in pi pr sc Hi Hr)) as H.
+  cbv beta in H. exact H.
 Qed.
 
 (** ---- unpacking [chk_all] ---- *)
@@ -164,9 +167,9 @@ Record run_facts (c : ctl) (r : result) : Prop := {
   rf_honest : is_oob_method (c_method c) = false -> honest c = true -> both success r = true;
   rf_dishonest : honest c = false -> both failure r = true }.
 
-Lemma chk_all_facts c : chk_all c = true -> run_facts c (sym_run c).
+Lemma chk_result_facts c r : chk_result c r = true -> run_facts c r.
 Proof.
-  unfold chk_all. set (r := sym_run c). clearbody r. cbv zeta. intros H.
+  unfold chk_result. cbv zeta. intros H.
   repeat match type of H with (_ && _) = true => let H' := fresh "K" in apply andb_true_iff in H as [H H'] end.
   apply negb_true_iff in K5, K6.
   constructor; try assumption.
@@ -183,7 +186,7 @@ Qed.
 
 Lemma run_facts_of pi pr sc :
   wf_params pi -> wf_params pr -> run_facts (control_of pi pr sc) (run pi pr sc).
-Proof. intros Hi Hr. apply chk_all_facts. apply chk_run; assumption. Qed.
+Proof. intros Hi Hr. unfold run. apply chk_result_facts. exact (chk_run pi pr sc Hi Hr). Qed.
 
 Lemma both_split f r : both f r = true -> f (r_i r) = true /\ f (r_r r) = true.
 Proof. unfold both. intros H. apply andb_true_iff in H. exact H. Qed.
@@ -457,4 +460,102 @@ Proof.
   intros Hi Hr. destruct (method_is_spec_peers (peer_of_params pi) (peer_of_params pr) Hi Hr) as [si [sr [H1 [H2 H3]]]].
   exists si, sr. split; [exact H1|]. split; [exact H2|].
   unfold sel_method. rewrite H3. destruct (spec_kres_is_method si sr) as [m [Hm _]]. rewrite Hm. reflexivity.
+Qed.
+
+(** ---- sequences of procedures through the same two stacks ----
+    The sweep again, from ARBITRARY carried-over values (registered key, crypto manager, passkey
+    counter, encrypted flag are universally quantified: the evaluation never inspects them before
+    the procedure has overwritten them). *)
+Lemma chk_sweep_from :
+  forall (sti str cnti cntr : N) (ki kr li lr : option term) (ei er : bool),
+    (sti = 0 \/ sti = 255) -> (str = 0 \/ str = 255) ->
+    forallb (fun c => chk_result c (sym_run_from (start_state sti cnti ki li ei) (start_state str cntr kr lr er) c))
+            all_ctls = true.
+Proof.
+  intros sti str cnti cntr ki kr li lr ei er [-> | ->] [-> | ->]; vm_compute; reflexivity.
+Qed.
+
+Lemma carry_start m s : startable s ->
+  exists st cnt k l e, (st = 0 \/ st = 255) /\ carry m s = start_state st cnt k l e.
+Proof.
+  intros [Hs _]. destruct m; cbn [carry].
+  - exists (s_state s), (s_cnt s), (s_enckey s), (s_llcm s), (s_encrypted s). split; [exact Hs | reflexivity].
+  - exists 0, 1, None, (s_llcm s), false. split; [left; reflexivity | reflexivity].
+Qed.
+
+Lemma facts_startable c r : run_facts c r -> startable (r_i r) /\ startable (r_r r).
+Proof.
+  intros F. destruct (f_outcomes c r F) as [_ [E1 [E2 [[S1 S2] | [F1 F2]]]]].
+  - unfold success in S1, S2.
+    repeat match goal with H : (_ && _) = true |- _ => apply andb_true_iff in H as [? ?] end.
+    split; (split; [right; apply N.eqb_eq; assumption | assumption]).
+  - unfold failure in F1, F2.
+    repeat match goal with H : (_ && _) = true |- _ => apply andb_true_iff in H as [? ?] end.
+    split; (split; [left; apply N.eqb_eq; assumption | assumption]).
+Qed.
+
+Definition wf_step (x : step_t) : Prop := let '(m, pi, pr, sc) := x in wf_params pi /\ wf_params pr.
+
+Lemma seq_facts : forall (l : list step_t) (si sr : sst),
+  startable si -> startable sr -> Forall wf_step l ->
+  Forall (fun cr => run_facts (fst cr) (snd cr)) (run_seq si sr l).
+Proof.
+  induction l as [|[[[m pi] pr] sc] l IH]; intros si sr Hi Hr Hl; cbn [run_seq]; [constructor|].
+  inversion Hl as [|x l' Hw Hl']; subst. cbn [wf_step] in Hw. destruct Hw as [Wi Wr].
+  destruct (carry_start m si Hi) as [sti [cnti [ki [li [ei [Hsti Ei]]]]]].
+  destruct (carry_start m sr Hr) as [str [cntr [kr [lr [er [Hstr Er]]]]]].
+  assert (F : run_facts (control_of pi pr sc) (sym_run_from (carry m si) (carry m sr) (control_of pi pr sc))).
+  { rewrite Ei, Er. apply chk_result_facts.
+    pose proof (proj1 (forallb_forall _ _) (chk_sweep_from sti str cnti cntr ki kr li lr ei er Hsti Hstr) _
+                      (control_of_in pi pr sc Wi Wr)) as H.
+    cbv beta in H. exact H. }
+  constructor; [exact F|].
+  destruct (facts_startable _ _ F) as [S1 S2]. apply IH; assumption.
+Qed.
+
+Lemma st_init_startable : startable st_init.
+Proof. split; [left; reflexivity | reflexivity]. Qed.
+
+(** each procedure of a sequence: same outcome on both sides; on success one set_encryption per
+    stack with the session key e(key, SKD) where key is THIS procedure's STK / LTK *)
+Lemma seq_session_key_agrees : forall (l : list step_t) (si sr : sst),
+  startable si -> startable sr -> Forall wf_step l ->
+  Forall (fun cr : ctl * result =>
+            let '(c, r) := cr in
+            r_quiet r = true /\ s_exc (r_i r) = false /\ s_exc (r_r r) = false /\
+            ((failure (r_i r) = true /\ failure (r_r r) = true) \/
+             (success (r_i r) = true /\ success (r_r r) = true /\
+              exists key,
+                s_setenc (r_i r) = [(t_e key, key)] /\ s_setenc (r_r r) = [(t_e key, key)]
+                /\ (if is_lesc_method (c_method c) then option_map trev (s_ltk (r_i r)) = Some key
+                    else s_stk (r_i r) = key)
+                /\ s_stk (r_i r) = s_stk (r_r r))))
+         (run_seq si sr l).
+Proof.
+  intros l si sr Hi Hr Hl. pose proof (seq_facts l si sr Hi Hr Hl) as H.
+  eapply Forall_impl; [|exact H]. intros [c r] F. cbn [fst snd] in F.
+  destruct (f_outcomes c r F) as [Q [E1 [E2 [[S1 S2] | [F1 F2]]]]]; repeat split; try assumption.
+  - right. split; [exact S1|]. split; [exact S2|].
+    destruct (f_session c r F S1 S2) as [key [A [B [K _]]]].
+    destruct (f_keys c r F S1 S2) as [EqStk _].
+    exists key. repeat split; assumption.
+  - left. split; assumption.
+Qed.
+
+Lemma seq_stored_is_distributed : forall (l : list step_t) (si sr : sst),
+  startable si -> startable sr -> Forall wf_step l ->
+  Forall (fun cr : ctl * result =>
+            let '(c, r) := cr in
+            success (r_i r) = true -> success (r_r r) = true ->
+            s_db (r_i r) = (if c_bond_i c
+                            then [expected_own_entry false (r_i r) (spec_auth (c_method c));
+                                  expected_peer_entry c true (r_r r) (spec_auth (c_method c))] else [])
+            /\ s_db (r_r r) = (if c_bond_r c
+                               then [expected_own_entry true (r_r r) (spec_auth (c_method c));
+                                     expected_peer_entry c false (r_i r) (spec_auth (c_method c))] else []))
+         (run_seq si sr l).
+Proof.
+  intros l si sr Hi Hr Hl. pose proof (seq_facts l si sr Hi Hr Hl) as H.
+  eapply Forall_impl; [|exact H]. intros [c r] F. cbn [fst snd] in F. intros S1 S2.
+  destruct (f_stored c r F S1 S2) as [A [B _]]. split; assumption.
 Qed.
